@@ -169,7 +169,11 @@ class Douglas(DiscriminativeModel):
         # Compute individual cut points backprop
         for i, (_, cut_points) in enumerate(self.cut_points_list_):
             axes_for_sum = tuple([1 + j for j in range(len(self.cut_points_list_)) if i != j])
-            softmax_grad = binning_backprop.sum(axes_for_sum) / self._all_binnings[i]
+            # The summed term is a multiple of the binning: where a bin membership underflows to 0, both are 0 and
+            # that entry is multiplied by the (zero) membership below, so any finite value is exact there
+            numerator = binning_backprop.sum(axes_for_sum)
+            softmax_grad = np.divide(numerator, self._all_binnings[i], out=np.zeros_like(numerator),
+                                     where=self._all_binnings[i] != 0)
 
             bin_grad = self._all_binnings[i] * (
                     softmax_grad - (self._all_binnings[i] * softmax_grad).sum(1, keepdims=True))  # Shape Nx(d+1)
